@@ -7,8 +7,8 @@ SPEC = {
     "direct_keys": [],
     "rule": "one evaluation = one solver run ending PrimalInfeasible or DualInfeasible, its certificate re-evaluated in exact dyadic arithmetic by the proved-sound checkers chk_farkas_p / chk_farkas_d against the user's original data; non-trivial = at least 2 variables or constraints; distinct = distinct problem JSON",
     "level": "proof",
-    "explanation": "Coq theorems (Props/C02.v): soundness of the certificate checkers, the derivation of the user-coordinates inequalities from the scaled test of info.rs (dot-product invariance b^'z^ = c kappa b'z, norm identities), and farkas_sound: a certificate in K* with A'z = 0, b'z < 0 refutes feasibility of the ORIGINAL data (zero/nonnegative/second-order cones; quantitative version for ||A'z|| <= delta). Every run ending in an infeasibility status is certified inside Coq.",
-    "assumptions": ["kappa and tau before normalisation are read through a cfg-guarded read-only hook in DefaultVariables::unscale", "IEEE rounding not analysed (Borderline band)", "farkas_sound proved for zero/NN/SOC cones"],
+    "explanation": "Coq theorems (Props/C02.v): soundness of the certificate checkers, the derivation of the user-coordinates inequalities from the scaled test of info.rs (dot-product invariance b^'z^ = c kappa b'z, norm identities), and farkas_sound: a certificate in K* with A'z = 0, b'z < 0 refutes feasibility of the ORIGINAL data (arbitrary products of zero, NN, SOC, exponential, power, generalised-power and PSD cones; quantitative version for ||A'z|| <= delta). Every run ending in an infeasibility status is certified inside Coq.",
+    "assumptions": ["kappa and tau before normalisation are read through a cfg-guarded read-only hook in DefaultVariables::unscale", "IEEE rounding not analysed (Borderline band)", "power cones with non-dyadic exponents are outside the spec fragment"],
 }
 
 
